@@ -340,7 +340,21 @@ func (f *rnsFam) Random(rng *rand.Rand) M {
 	case r < 86:
 		n, o := exist()
 		return M{"a": "addrec", "s": o, "n": n, "r": f.recs[rng.Intn(2)]}
-	case r < 89:
+	case r < 90:
+		// half of the time: an existing record, deleted by the account its value names (after a transfer that is no longer the owner)
+		var withRecs []int
+		for i, x := range all {
+			if len(x.Subdomains) > 0 {
+				withRecs = append(withRecs, i)
+			}
+		}
+		if len(withRecs) > 0 && rng.Intn(2) == 0 {
+			x := all[withRecs[rng.Intn(len(withRecs))]]
+			sub := x.Subdomains[rng.Intn(len(x.Subdomains))]
+			if who := f.c.LabelOf(sub.Value); !strings.HasPrefix(who, "?") {
+				return M{"a": "delrec", "s": who, "n": x.Name + "." + x.Tld, "r": sub.Name}
+			}
+		}
 		n, o := exist()
 		return M{"a": "delrec", "s": o, "n": n, "r": f.recs[rng.Intn(2)]}
 	case r < 91:
